@@ -483,6 +483,105 @@ def r7_locator_kept_on_add(idx, r):
     r.require(add is not None and len(add.args) == 1, "_compose:add-without-location", cm, node=add, msg="children are added with their already assigned locator (no explicit location)")
 
 
+def r8_linked_setters(idx, r):
+    """envGroup and envGroupNum overwrite each other: each setter stores both backing fields. On load the database
+    applies BOTH datasets one after the other, so the two setters must be mutually inverse on every admissible value,
+    or loading a saved reactor changes the pair. Decided by exhaustive evaluation of the two codecs over the finite
+    domain the number setter admits (E6, armiverif/minieval.py)."""
+    from ..minieval import MiniEval, Raised
+
+    m = idx.module("armi.reactor.blockParameters")
+    if m is None:
+        raise AnchorMissing("armi.reactor.blockParameters")
+    fns = {n.name: n for n in ast.walk(m.tree) if isinstance(n, ast.FunctionDef) and n.name in ("envGroup", "envGroupNum")}
+    if set(fns) != {"envGroup", "envGroupNum"}:
+        raise AnchorMissing("setters envGroup / envGroupNum in blockParameters")
+    consts = {}
+    for n in m.tree.body:
+        if isinstance(n, ast.Assign) and len(n.targets) == 1 and isinstance(n.targets[0], ast.Name):
+            try:
+                v = idx.fold(m, n.value)
+            except AnalysisError:
+                continue
+            if isinstance(v, (int, str)):
+                consts[n.targets[0].id] = v
+    ev = MiniEval(consts, skip_calls=("runLog.",), resolver=lambda nm: idx.fold(m, nm))
+    at = m
+    admitted, first_bad = 0, None
+    for n in range(0, 200):
+        try:
+            _, a1 = ev.run(fns["envGroupNum"], {"envGroupNum": n})
+        except Raised:
+            break
+        admitted += 1
+        ch = a1.get("_p_envGroup")
+        if a1.get("_p_envGroupNum") != n or not isinstance(ch, str):
+            first_bad = first_bad or (n, f"envGroupNum({n}) stores number {a1.get('_p_envGroupNum')!r} and letter {ch!r}")
+            continue
+        try:
+            _, a2 = ev.run(fns["envGroup"], {"envGroupChar": ch})
+        except Raised as e:
+            first_bad = first_bad or (n, f"envGroupNum({n}) stores letter {ch!r}, which the letter setter rejects ({e})")
+            continue
+        if a2.get("_p_envGroupNum") != n or a2.get("_p_envGroup") != ch:
+            first_bad = first_bad or (n, f"envGroupNum({n}) stores letter {ch!r}, but envGroup({ch!r}) stores number {a2.get('_p_envGroupNum')!r}")
+    if admitted < 26:
+        raise AnalysisError(f"envGroupNum admits only {admitted} values; the domain scan is not meaningful")
+    key = "envGroupNum->envGroup->envGroupNum"
+    if first_bad:
+        r.violate(key + f":{first_bad[0]}", at, f"{first_bad[1]}: the pair written to the database does not survive being applied by the two setters on load "
+                  f"({admitted} numbers admitted, first failure at {first_bad[0]})", node=fns["envGroupNum"])
+    else:
+        r.ok(key, at, node=fns["envGroupNum"], msg=f"identity on all {admitted} admitted numbers")
+    # and the other way round over the letters
+    bad = None
+    letters = [chr(c) for c in range(ord("A"), ord("Z") + 1)] + [chr(c) for c in range(ord("a"), ord("z") + 1)]
+    for ch in letters:
+        try:
+            _, a1 = ev.run(fns["envGroup"], {"envGroupChar": ch})
+            _, a2 = ev.run(fns["envGroupNum"], {"envGroupNum": a1.get("_p_envGroupNum")})
+        except Raised as e:
+            bad = bad or f"letter {ch!r} is rejected ({e})"
+            continue
+        if a2.get("_p_envGroup") != ch:
+            bad = bad or f"envGroup({ch!r}) stores number {a1.get('_p_envGroupNum')!r}, but envGroupNum of that stores letter {a2.get('_p_envGroup')!r}"
+    r.require(bad is None, "envGroup->envGroupNum->envGroup", at, node=fns["envGroup"], msg=f"{bad}: a block in that group changes group on load")
+
+
+def r9_multi_location_bridge(idx, r):
+    """The writer stores a component that occupies several lattice sites as location type 'M:<n>' (isinstance
+    MultiIndexLocation) - also for n = 1; the loader rebuilds it by indexing the grid with a LIST of indices. The
+    bridge is StructuredGrid.__getitem__: on every path taken for a list argument it must return a MultiIndexLocation."""
+    f = idx.method("armi.reactor.grids.structuredGrid.StructuredGrid", "__getitem__")
+    if f is None:
+        raise AnchorMissing("StructuredGrid.__getitem__")
+    arg = f.params()[1]
+    branch = None
+    for n in walk_local(f.node):
+        if isinstance(n, ast.If) and norm(n.test) == f"isinstance({arg}, list)":
+            branch = n
+    if branch is None:
+        raise AnchorMissing("StructuredGrid.__getitem__: `isinstance(<arg>, list)` branch")
+    inner_returns = [x for st in branch.body for x in ast.walk(st) if isinstance(x, ast.Return)]
+    assigns = [st for st in branch.body if isinstance(st, ast.Assign) and isinstance(st.targets[0], ast.Name)]
+    multi = [st for st in assigns if isinstance(st.value, ast.Call) and (dotted(st.value.func) or "").endswith("MultiIndexLocation")]
+    tail = f.node.body[-1]
+    ok_tail = isinstance(tail, ast.Return) and isinstance(tail.value, ast.Name) and multi and tail.value.id == multi[0].targets[0].id and sum(1 for st in assigns if st.targets[0].id == tail.value.id) == 1
+    r.require(not inner_returns, "list-branch:no-other-return", f, node=(inner_returns[0] if inner_returns else branch),
+              msg="the list branch returns something else than the MultiIndexLocation it builds on one path (e.g. the bare IndexLocation for a one-element list): "
+                  "a component stored as 'M:1' is loaded with another locator type and re-saved as 'I'")
+    r.require(bool(ok_tail), "list-branch:returns-multi", f, node=branch, msg="the value returned for a list argument must be the MultiIndexLocation constructed in that branch")
+    # the writer's end of the bridge: a type test against MultiIndexLocation in the location packers
+    lay = idx.module("armi.bookkeeping.db.layout")
+    packs = [g for g in lay.all_funcs() if g.name.startswith("_packLocations")]
+    if not packs:
+        raise AnchorMissing("layout._packLocations*")
+    def type_test(n):
+        return (isinstance(n, ast.Compare) and "MultiIndexLocation" in norm(n)) or (isinstance(n, ast.Call) and dotted(n.func) == "isinstance" and "MultiIndexLocation" in norm(n))
+    tagged = [g for g in packs if any(type_test(n) for n in ast.walk(g.node))]
+    r.require(bool(tagged), "writer:tags-multi", packs[-1], msg="no location packer distinguishes MultiIndexLocation by a type test any more")
+
+
 def run(idx, chk):
     chk.explanation = (
         "C04: Layout.writeToDB/_readLayout, _createLayout/_initComps/_compose, _packLocationsV3/_unpackLocationsV2, "
@@ -507,3 +606,7 @@ def run(idx, chk):
                  necessary="loaded objects sit at the grid locations they were saved at")
     chk.run_rule("R04.5", "linked dimensions: written '{name}.{dim}' matches COMPONENT_LINK_REGEX; reader restores link or value; resolve installs the link",
                  lambda r: r5_linked_dims(idx, r), floor=7, necessary="dimensions (linked or not) must come back as they were")
+    chk.run_rule("R04.8", "the mutually overwriting setters of envGroup / envGroupNum are inverse on every admitted value (exhaustive)", lambda r: r8_linked_setters(idx, r), floor=2,
+                 necessary="both parameters are stored and both setters run on load: a non-inverse pair changes the group of a loaded block")
+    chk.run_rule("R04.9", "indexing a grid with a list yields a MultiIndexLocation on every path (what 'M:n' locations are rebuilt through)", lambda r: r9_multi_location_bridge(idx, r), floor=3,
+                 necessary="location kinds written = location kinds rebuilt, also for single-site multi-locations")
